@@ -902,6 +902,27 @@ func (g *FuncGen) execMapUpdate(x *ssa.MapUpdate) {
 func (g *FuncGen) execRange(x *ssa.Range) {
 	// iterator over map or string: opaque handle; remember the collection
 	g.vals[x] = g.val(x.X)
+	if mt, ok := x.X.Type().Underlying().(*types.Map); ok {
+		// ghost set of the keys visited so far (each key is visited exactly once; the loop ends when all
+		// keys present have been visited; the iterated map must not be modified by the loop body)
+		key := g.rangeVisitedKey(x)
+		ks := g.sc.sortOf(mt.Key())
+		g.update(key, fmt.Sprintf("((as const (Array %s Bool)) false)", ks))
+	}
+}
+
+// rangeVisitedKey names the ghost cell holding the visited-key set of a map range statement.
+func (g *FuncGen) rangeVisitedKey(x *ssa.Range) string {
+	key := fmt.Sprintf("cell:visited#%d", x.Block().Index)
+	if _, ok := g.cellSort[key]; !ok {
+		mt := x.X.Type().Underlying().(*types.Map)
+		g.cellSort[key] = "(Array " + g.sc.sortOf(mt.Key()) + " Bool)"
+		if g.visitedOf == nil {
+			g.visitedOf = map[*ssa.Range]string{}
+		}
+		g.visitedOf[x] = key
+	}
+	return key
 }
 
 func (g *FuncGen) execNext(x *ssa.Next) {
@@ -920,6 +941,14 @@ func (g *FuncGen) execNext(x *ssa.Next) {
 	k := g.declare("nextk", g.sc.sortOf(mt.Key()))
 	g.assumeValid(mt.Key(), k)
 	g.assume(fmt.Sprintf("(=> %s (and (not (= %s 0)) (select (select %s %s) %s)))", ok, m, g.get(g.st, dom), m, k))
+	{
+		vk := g.rangeVisitedKey(rng)
+		vis := g.get(g.st, vk)
+		ks := g.sc.sortOf(mt.Key())
+		g.assume(fmt.Sprintf("(=> %s (not (select %s %s)))", ok, vis, k))
+		g.assume(fmt.Sprintf("(=> (not %s) (forall ((vk! %s)) (! (=> (and (not (= %s 0)) (select (select %s %s) vk!)) (select %s vk!)) :pattern ((select %s vk!)))))", ok, ks, m, g.get(g.st, dom), m, vis, vis))
+		g.update(vk, fmt.Sprintf("(ite %s (store %s %s true) %s)", ok, vis, k, vis))
+	}
 	v := g.def("nextv", g.sc.sortOf(mt.Elem()), fmt.Sprintf("(select (select %s %s) %s)", g.get(g.st, val), m, k))
 	g.assumeValid(mt.Elem(), v)
 	g.tups[x] = []string{ok, k, v}
